@@ -27,7 +27,7 @@ theorem structureCheck_eval {g : Forest} {p c : Nat} {pv cv : Value}
   rw [h1, hanc, hcv]
   cases cv <;> simp_all [Value.category, Value.isDocument]
 
-theorem addConsolidate_nontext {g : Forest} {node : Nat} (prev next : Option Nat)
+theorem fi_addConsolidate_nontext {g : Forest} {node : Nat} (prev next : Option Nat)
     (h : g.textOf node = none) : g.addConsolidate node prev next = (g, false) := by
   unfold addConsolidate
   split
@@ -95,7 +95,7 @@ theorem not_anc_of_other_root {g : Forest} (nd : g.allHandles.Nodup) {L : List H
     have hm := mem_subtree_of_anc lcW nd hxa hc
     have hnd := nd
     unfold allHandles at hnd
-    rw [hr, handlesList_append] at hnd
+    rw [hr, fi_handlesList_append] at hnd
     exact (List.nodup_append.mp hnd).2.2 x hx x (by simpa using hm) rfl
 
 /-- `insert_after(P, w)` for a parentless non-text normal node `w` (the last root) and a
@@ -123,8 +123,8 @@ theorem insertAfter_root_explicit {g : Forest} (nd : g.allHandles.Nodup) {init :
     exact (lcW.fresh nd).left (e ▸ hx)
   have hPin : P.handle ∈ handlesList (plug (init ++ [fr]) (l0 ++ P :: r)) := by
     rw [mem_handlesList_plug]; right
-    simp only [handlesList_append, handlesList_cons, List.mem_append]
-    exact Or.inr (Or.inl (handle_mem_handles P))
+    simp only [fi_handlesList_append, handlesList_cons, List.mem_append]
+    exact Or.inr (Or.inl (fi_handle_mem_handles P))
   have hParin : fr'.h ∈ handlesList (plug (init ++ [fr]) (l0 ++ P :: r)) := by
     rw [hfh, mem_handlesList_plug]; left
     clear hplug hr hr' lcP lcW lcPar hL hPin
@@ -148,8 +148,8 @@ theorem insertAfter_root_explicit {g : Forest} (nd : g.allHandles.Nodup) {init :
       simp only [List.head?_cons, Option.bind_some]
       have hNin : N.handle ∈ handlesList (plug (init ++ [fr]) (l0 ++ P :: N :: r0)) := by
         rw [mem_handlesList_plug]; right
-        simp only [handlesList_append, handlesList_cons, List.mem_append]
-        exact Or.inr (Or.inr (Or.inl (handle_mem_handles N)))
+        simp only [fi_handlesList_append, handlesList_cons, List.mem_append]
+        exact Or.inr (Or.inr (Or.inl (fi_handle_mem_handles N)))
       split
       · simp [(hL _ hNin).1]
       · rfl
@@ -157,7 +157,7 @@ theorem insertAfter_root_explicit {g : Forest} (nd : g.allHandles.Nodup) {init :
   unfold insertAfter
   simp only [hpar, hsc, hsr, hnext, Bool.not_true, Bool.false_eq_true, if_false,
     prevSibling_of_loc_nil lcW nd, nextSibling_of_loc_nil lcW nd, removeConsolidate_none,
-    Bool.false_and, addConsolidate_nontext _ _ htw]
+    Bool.false_and, fi_addConsolidate_nontext _ _ htw]
   unfold checkedInsertAfter
   rw [if_neg (hL _ hPin).1, (hL _ hPin).2, isRoot_of_loc_ne lcP (by simp) nd, cut_of_loc lcW nd]
   simp only [Bool.or_self, Bool.false_eq_true, if_false]
@@ -265,16 +265,16 @@ theorem elementWrap_inv_of_gap {f : Forest} (hi : f.Inv) (node name : Nat) (hg :
     refine (List.Perm.nodup_iff ?_).mpr hi1.nodup
     refine List.Perm.trans ?_ hp
     unfold allHandles
-    simp only [← hplug, handlesList_append, handlesList_cons, handlesList_nil, List.append_nil,
+    simp only [← hplug, fi_handlesList_append, handlesList_cons, handlesList_nil, List.append_nil,
       handles_node, List.append_assoc]
-    rw [handles_eq c.self, lc.hk]
+    rw [fi_handles_eq c.self, lc.hk]
   rw [append_root_explicit nd2 rfl hAn hAd]
   simp only
   have nd3 : ({ (f.newNode (.element name)).1 with roots := plug (init ++ [fr]) (c.left ++ c.right) ++
       [.node f.next (.element name) [.node node c.self.value c.self.kids]] } : Forest).allHandles.Nodup := by
     refine (List.Perm.nodup_iff ?_).mpr nd2
     unfold allHandles
-    simp only [handlesList_append, handlesList_cons, handlesList_nil, List.append_nil, handles_node,
+    simp only [fi_handlesList_append, handlesList_cons, handlesList_nil, List.append_nil, handles_node,
       List.append_assoc, List.cons_append, List.nil_append]
     exact List.Perm.refl _
   have hroots3 : ({ (f.newNode (.element name)).1 with roots := plug (init ++ [fr]) (c.left ++ c.right) ++
@@ -291,12 +291,12 @@ theorem elementWrap_inv_of_gap {f : Forest} (hi : f.Inv) (node name : Nat) (hg :
   refine Inv.of_perm (f := (f.newNode (.element name)).1) hi1 rfl rfl rfl rfl ?_ ?_
   · unfold allHandles
     simp only
-    rw [hroots1, ← hplug, hl, handlesList_append]
+    rw [hroots1, ← hplug, hl, fi_handlesList_append]
     refine (handlesList_plug_perm _ _).trans (List.Perm.trans ?_
       ((handlesList_plug_perm _ _).symm.append_right _))
-    simp only [handlesList_append, handlesList_cons, handlesList_nil, List.append_nil, handles_node,
+    simp only [fi_handlesList_append, handlesList_cons, handlesList_nil, List.append_nil, handles_node,
       List.append_assoc, List.cons_append, List.nil_append]
-    rw [handles_eq c.self, lc.hk]
+    rw [fi_handles_eq c.self, lc.hk]
     -- move the fresh handle to the end
     refine List.Perm.append_left _ (List.Perm.append_left _ (List.Perm.append_left _ ?_))
     have e : node :: handlesList c.self.kids ++ (handlesList c.right ++ [f.next]) =
